@@ -68,6 +68,21 @@ def _excmap_get(it, m, args, kw, node):
 B.METHODS[('ExcMap', 'get')] = _excmap_get
 
 
+def _excmap_contains(self, it, x, node):
+    fz = x.z if isinstance(x, SV) else z3.StringVal(x)
+    y = z3.Const('y$exc', Str)
+    return z3.Exists([y], exc(self.pos, fz, y))          # a stored form has at least one lemma
+
+
+def _excmap_getitem(self, it, idx, node):
+    it.safety_check(_excmap_contains(self, it, idx, node), KeyError, node, 'exceptions[pos][form]')
+    return _excmap_get(it, self, [idx], {}, node)
+
+
+ExcMap.vc_contains = _excmap_contains
+ExcMap.vc_getitem = _excmap_getitem
+
+
 def _to_seq_hook():
     from vc.pyvc import interp as I
     orig = I.Interp.to_seq
